@@ -103,6 +103,22 @@ func show(sb *strings.Builder, v any) {
 		sb.WriteString(fmtFloat(t))
 	case gen.Float:
 		sb.WriteString(fmtFloat(float64(t)))
+	case int8:
+		sb.WriteString("i" + strconv.FormatInt(int64(t), 10))
+	case int16:
+		sb.WriteString("i" + strconv.FormatInt(int64(t), 10))
+	case int32:
+		sb.WriteString("i" + strconv.FormatInt(int64(t), 10))
+	case uint:
+		sb.WriteString("i" + strconv.FormatUint(uint64(t), 10))
+	case uint8:
+		sb.WriteString("i" + strconv.FormatUint(uint64(t), 10))
+	case uint16:
+		sb.WriteString("i" + strconv.FormatUint(uint64(t), 10))
+	case uint32:
+		sb.WriteString("i" + strconv.FormatUint(uint64(t), 10))
+	case uint64:
+		sb.WriteString("i" + strconv.FormatUint(t, 10))
 	case json.Number:
 		sb.WriteString("b" + string(t))
 	case gen.Big:
